@@ -236,11 +236,8 @@ func (s *Solver) Model(vars []*term.Term) (map[string]uint64, error) {
 	sb.WriteString("(get-value (")
 	asked := 0
 	for _, v := range vars {
-		// variables never sent to the solver are unconstrained: declare them
-		var d strings.Builder
-		s.pr.Ref(v, &d)
-		if d.Len() > 0 {
-			// declaring after check-sat invalidates the model in some solvers: skip, default 0
+		// variables never sent to the solver are unconstrained: any value will do
+		if !s.pr.Has(v) {
 			m[v.Name] = 0
 			continue
 		}
